@@ -373,11 +373,16 @@ func c10Compare(s *model.Schema, js *jSchema) string {
 			if len(g.EnumValues) != len(td.Values) {
 				return fmt.Sprintf("%s: %d enum values reported, %d configured", at, len(g.EnumValues), len(td.Values))
 			}
+			seenValue := map[string]bool{}
 			for _, gv := range g.EnumValues {
 				wv := td.Value(gv.Name)
 				if wv == nil {
 					return fmt.Sprintf("%s: unknown enum value %s", at, gv.Name)
 				}
+				if seenValue[gv.Name] {
+					return fmt.Sprintf("%s: enum value %s is listed twice", at, gv.Name)
+				}
+				seenValue[gv.Name] = true
 				if strp(gv.Description) != wv.Desc || gv.IsDeprecated != (wv.Deprecation != "") || strp(gv.DeprecationReason) != wv.Deprecation {
 					return fmt.Sprintf("%s.%s: (%q,%v,%q), configured (%q,%q)", at, gv.Name, strp(gv.Description), gv.IsDeprecated, strp(gv.DeprecationReason), wv.Desc, wv.Deprecation)
 				}
@@ -530,6 +535,21 @@ func c10Introspect(b *build.Built, full *model.Schema) (msg string) {
 		if strings.Join(wantV, ",") != strings.Join(gotV, ",") {
 			return fmt.Sprintf("__type(name:%q).enumValues without includeDeprecated = %v, want %v", td.Name, gotV, wantV)
 		}
+	}
+	// the full description once more, after all those requests were served by the same schema
+	res = graphql.Do(graphql.Params{Schema: b.Schema, RequestString: introQuery})
+	if len(res.Errors) > 0 {
+		return "second introspection query failed: " + res.Errors[0].Message
+	}
+	raw, _ = json.Marshal(res.Data)
+	var again struct {
+		Schema jSchema `json:"__schema"`
+	}
+	if err := json.Unmarshal(raw, &again); err != nil {
+		return "HARNESS: decode: " + err.Error()
+	}
+	if m := c10Compare(full, &again.Schema); m != "" {
+		return "after the partial introspection requests were served, the schema describes itself differently: " + m
 	}
 	return ""
 }
